@@ -388,6 +388,31 @@ func fuzzSeeds() [][]byte {
 		}
 		m.Normalize()
 		out = append(out, ref.Canonical(&m))
+		// the same packet type with every property that may legally be
+		// transmitted with the value zero written out explicitly
+		z := model.New(typ)
+		z.PacketID = 1
+		switch typ {
+		case model.CONNECT:
+			z.ClientID = "z"
+			z.Will = &model.Will{Topic: "w"}
+		case model.PUBLISH:
+			z.PacketID, z.TopicName = 0, "t"
+		case model.SUBSCRIBE:
+			z.Filters = []model.Filter{{Filter: "a", Opts: 0}}
+		case model.UNSUBSCRIBE:
+			z.UnsubFilters = []string{"a"}
+		case model.SUBACK, model.UNSUBACK:
+			z.ReasonCodes = []uint8{0}
+		}
+		z.Normalize()
+		st := ref.Style{ExplicitZero: map[byte]bool{}, Form: 2}
+		for _, id := range explicitZeroCandidates {
+			st.ExplicitZero[byte(id)] = true
+		}
+		if f, _ := ref.Encode(&z, st); len(f) > 0 {
+			out = append(out, f)
+		}
 	}
 	for _, h := range []string{"400100", "8206000100000561", "a206000100000561", "2003000080", "30ffffffff7f", "00", "e0068b041f000178", "9003000100", "3005000161ff"} {
 		b, _ := hex.DecodeString(h)
